@@ -19,6 +19,7 @@ the committed bucket only.  Proved below for the generic `ItemCache` over any `S
 and the inverted index' private set cache are covered by the correspondence harness only.
 -/
 import SemaModel.C08.Lemmas
+import SemaModel.C08.ReadOnly
 import SemaModel.C04.Lemmas
 import SemaModel.Generated.FactsC08
 namespace Sema.C08
@@ -185,6 +186,48 @@ theorem C08_answer_indep {st : Storable K V} {proj : V → P} {ok : K → V → 
   rintro ⟨id, p⟩
   rw [mem l₁ c₁ h₁ s₁ id p, mem l₂ c₂ h₂ s₂ id p]
 
+/-! ### read-only and failing transactions (ReadOnly.lean)
+
+`C08_history` knows committed writes only.  A shard also runs SEARCHES — read-only transactions that go through
+the same shared cache (`Get` reads through and remembers, `ForEach` loads the whole bucket and sets
+`isAllInCache`), never flush and leave the bucket alone — and write transactions that FAIL: bbolt rolls the
+bucket back (assumed) and `Commit(true)` drops every cache the transaction wrote (C11_failed_dropped). -/
+
+/-- **a search leaves the shared cache coherent**: whatever `Get`s and `ForEach`es a read-only transaction
+issues on a coherent cache, the cache it leaves behind (possibly populated, possibly with `isAllInCache`) is
+coherent with the unchanged bucket — so the next transaction, on this cache or on a fresh one, still sees
+exactly the committed bucket -/
+theorem C08_search_coherent {st : Storable K V} {proj : V → P} {ok : K → V → KV → Prop} {wf : KV → Prop}
+    (L : Laws st proj ok) (E : EnumLaws st wf) {c : Cache K V} {kv : KV} (hwf : wf kv)
+    (h : Coherent st proj ok c kv) (rs : List (Read K)) :
+    Coherent st proj ok (rs.foldl (applyRead st kv) c) kv ∧
+    ∀ id, view st proj (rs.foldl (applyRead st kv) c).items kv id = obs st proj kv id :=
+  ⟨coherent_applyReads L E hwf rs h, fun id => coherent_view (coherent_applyReads L E hwf rs h) id⟩
+
+/-- **histories of committed writes, searches and failed writes**, with the manager keeping or dropping the
+shared cache before each transaction as it likes: the cache stays coherent, and the bucket holds exactly the
+effects of the COMMITTED writes — `specMixed` ignores the fates, the searches and the failed writes -/
+theorem C08_history_mixed {st : Storable K V} {proj : V → P} {ok : K → V → KV → Prop} {wf : KV → Prop}
+    (g : (K → V → V) → K → P → P) (L : Laws st proj ok) (E : EnumLaws st wf) (W : WfLaws st ok wf)
+    (hist : List (Fate × Tx K V)) {c : Cache K V} {kv : KV} (hwf : wf kv)
+    (h : Coherent st proj ok c kv) (hrun : OkMixed st proj ok g (c, kv) hist) :
+    Coherent st proj ok (runMixed st (c, kv) hist).1 (runMixed st (c, kv) hist).2 ∧
+    wf (runMixed st (c, kv) hist).2 ∧
+    ∀ id, obs st proj (runMixed st (c, kv) hist).2 id = specMixed proj g (obs st proj kv) hist id :=
+  runMixed_spec g L E W hist hwf h hrun
+
+/-- **the cache of a failed write must go** (closed witness on the extracted binary plan): a write that put a
+point and then failed — bucket rolled back.  If the cache were kept (`runTxKeepFailed`) the next transaction
+would see the point that was never committed (`view ≠ obs`); dropped, as the code does, it does not. -/
+theorem C08_failed_kept_witness :
+    (let st := storable binaryQuantizedPoint
+     let t : Fate × Tx Id Pt := (.keep, .failed [.put 5#64 { vec := [1#8] }])
+     view st norm (runTxKeepFailed st (Cache.empty, KV.empty) t).1.items (runTxKeepFailed st (Cache.empty, KV.empty) t).2 5#64
+        ≠ obs st norm (runTxKeepFailed st (Cache.empty, KV.empty) t).2 5#64 ∧
+     view st norm (runTx st (Cache.empty, KV.empty) t).1.items (runTx st (Cache.empty, KV.empty) t).2 5#64
+        = obs st norm (runTx st (Cache.empty, KV.empty) t).2 5#64) := by
+  decide
+
 /-! ### backends -/
 
 /-- **C08_backend**: the bbolt backend (failed batches rolled back) and the memory backend (no
@@ -289,6 +332,65 @@ theorem C08_history_graphNode (g : (Id → Pt → Pt) → Id → Pt → Pt)
     ∀ id, obs (storable graphNode) norm (runHistory (storable graphNode) (c, kv) hist).2 id =
       specHistory norm g (obs (storable graphNode) norm kv) hist id :=
   (C08_history g laws_graphNode enum_graphNode (wf_trivial _ _) hist trivial h hrun).2.2
+
+/-- `C08_history_mixed`, instantiated for each vector store -/
+theorem C08_history_mixed_partial (k : Kind) (g : (Id → Pt → Pt) → Id → Pt → Pt)
+    (hist : List (Fate × Tx Id Pt)) {c : Cache Id Pt} {kv : KV} (hwf : wfOf k kv)
+    (h : Coherent (storable (planOf k)) norm (okOf k) c kv)
+    (hrun : OkMixed (storable (planOf k)) norm (okOf k) g (c, kv) hist) :
+    Coherent (storable (planOf k)) norm (okOf k) (runMixed (storable (planOf k)) (c, kv) hist).1
+      (runMixed (storable (planOf k)) (c, kv) hist).2 ∧
+    wfOf k (runMixed (storable (planOf k)) (c, kv) hist).2 ∧
+    ∀ id, obs (storable (planOf k)) norm (runMixed (storable (planOf k)) (c, kv) hist).2 id =
+      specMixed norm g (obs (storable (planOf k)) norm kv) hist id :=
+  C08_history_mixed g (laws_of k) (enum_of k) (wf_of k) hist hwf h hrun
+
+/-- `C08_search_coherent`, instantiated for each vector store -/
+theorem C08_search_coherent_partial (k : Kind) {c : Cache Id Pt} {kv : KV} (hwf : wfOf k kv)
+    (h : Coherent (storable (planOf k)) norm (okOf k) c kv) (rs : List (Read Id)) :
+    Coherent (storable (planOf k)) norm (okOf k) (rs.foldl (applyRead (storable (planOf k)) kv) c) kv ∧
+    ∀ id, view (storable (planOf k)) norm (rs.foldl (applyRead (storable (planOf k)) kv) c).items kv id =
+      obs (storable (planOf k)) norm kv id :=
+  C08_search_coherent (laws_of k) (enum_of k) hwf h rs
+
+/-! ### training (`Fit`) is an allowed operation of a history
+
+`OpOk … (.mutate f)` judges the rewrite on the values a transaction can hold for an id (one that agrees with
+the bucket, or one waiting to be written).  For the quantisers' `Fit` — set the code, raise `isDirty` — it
+holds on every (well-formed) bucket, so `C08_history_partial` / `C08_history_mixed_partial` are not vacuous
+for histories that contain training, the product quantiser included (it was: the audit's scratch witness). -/
+
+/-- the rewrite `Fit` performs on every cached point: the new code, `isDirty` raised (vector untouched) -/
+def fitRewrite (code : Id → Bytes) : Id → Pt → Pt := fun id p => { p with code := code id, dirty := true }
+
+/-- its effect on the persisted projection -/
+def fitSpec : (Id → Pt → Pt) → Id → Pt → Pt := fun f id p => norm (f id p)
+
+theorem C08_fit_opok_binary (kv : KV) (code : Id → Bytes) (hcode : ∀ id, code id ≠ []) :
+    OpOk (storable binaryQuantizedPoint) norm okQ fitSpec kv (.mutate (fitRewrite code)) := by
+  intro id v _
+  refine ⟨by simp [fitRewrite, storable, binaryQuantizedPoint], ⟨Or.inl (hcode id), fun hc => absurd hc (hcode id)⟩, ?_⟩
+  simp [fitSpec, fitRewrite, norm, hcode id]
+
+theorem C08_fit_opok_product (kv : KV) (hwf : wfProduct kv) (code : Id → Bytes) (hcode : ∀ id, code id ≠ []) :
+    OpOk (storable productQuantizedPoint) norm okP fitSpec kv (.mutate (fitRewrite code)) := by
+  intro id v hv
+  refine ⟨by simp [fitRewrite, storable, productQuantizedPoint],
+    ⟨⟨Or.inl (hcode id), fun hc => absurd hc (hcode id)⟩, ?_⟩, ?_⟩
+  · intro hvec
+    have hvec' : v.vec = [] := hvec
+    rcases hv with ho | ho
+    · -- the value agrees with the bucket: the point is stored, and a stored point has its vector key
+      have hr : ((storable productQuantizedPoint).readFrom id kv).isSome := by
+        unfold obs at ho
+        cases hr : (storable productQuantizedPoint).readFrom id kv <;> simp [hr] at ho ⊢
+      have hq := hwf id
+      show (kv.get (nodeKey id 0x76#8)).isSome
+      revert hr hq
+      plan_simp []
+      cases kv.get (nodeKey id 0x71#8) <;> cases kv.get (nodeKey id 0x76#8) <;> simp
+    · exact ho.2 hvec'
+  · simp [fitSpec, fitRewrite, norm, hcode id]
 
 /-! ### persisted parameters -/
 
@@ -548,6 +650,58 @@ example : ∃ (c : Cache Id Pt) (kv : KV),
   have h0 : Tracked (storable binaryQuantizedPoint) norm okQ Cache.empty KV.empty :=
     (coherent_empty _ _ _ _).tracked
   exact tracked_put (tracked_put h0 _ _ ⟨by simp, by simp⟩) _ _ ⟨by simp, by simp⟩
+
+/-- the committed bucket of the examples below: two points of a trained binary store, flushed -/
+def exWarm : Cache Id Pt × KV :=
+  flush (storable binaryQuantizedPoint)
+    (put (put Cache.empty 5#64 { vec := [1#8], code := [2#8] }) 6#64 { vec := [3#8], code := [4#8] }) KV.empty
+
+theorem exWarm_tracked : Tracked (storable binaryQuantizedPoint) norm okQ
+    (put (put Cache.empty 5#64 { vec := [1#8], code := [2#8] }) 6#64 { vec := [3#8], code := [4#8] }) KV.empty :=
+  tracked_put (tracked_put (coherent_empty _ _ _ _).tracked _ _ ⟨by simp, by simp⟩) _ _ ⟨by simp, by simp⟩
+
+/-- `C08_answer_indep` / `C08_answer_indep_get` / `C04_warm_cold`: a NON-EMPTY coherent pair over the same
+non-empty bucket — the warm cache that flushed the two points and a fresh one (restart / eviction) -/
+example : Coherent (storable binaryQuantizedPoint) norm okQ exWarm.1 exWarm.2 ∧
+    Coherent (storable binaryQuantizedPoint) norm okQ Cache.empty exWarm.2 ∧
+    exWarm.1.items.length = 2 ∧ (keys exWarm.2).length = 2 ∧
+    (get (storable binaryQuantizedPoint) exWarm.1 exWarm.2 5#64).2.map norm = some { code := [2#8] } ∧
+    (get (storable binaryQuantizedPoint) Cache.empty exWarm.2 5#64).2.map norm = some { code := [2#8] } :=
+  ⟨(C08_flush_binary exWarm_tracked).1, coherent_empty _ _ _ _, by decide, by decide, by decide, by decide⟩
+
+/-- `C08_search_coherent`: a search on the fresh cache (a `Get`, then a `ForEach`) populates it (two items,
+`isAllInCache`) — and it is still coherent -/
+example : (([Read.get 5#64, Read.scan].foldl (applyRead (storable binaryQuantizedPoint) exWarm.2) Cache.empty).items.length = 2 ∧
+    ([Read.get 5#64, Read.scan].foldl (applyRead (storable binaryQuantizedPoint) exWarm.2) Cache.empty).isAllInCache = true) ∧
+    Coherent (storable binaryQuantizedPoint) norm okQ
+      ([Read.get 5#64, Read.scan].foldl (applyRead (storable binaryQuantizedPoint) exWarm.2) Cache.empty) exWarm.2 :=
+  ⟨by decide, (C08_search_coherent_partial .binary (kv := exWarm.2) trivial (coherent_empty _ _ _ _) _).1⟩
+
+/-- `C08_history_partial .product` / `C08_history_mixed_partial .product` with TRAINING: the hypotheses hold on a
+history of the product store that writes two raw points, is searched, suffers a failed write, and is then
+trained (`Fit` rewrites both points) after an eviction — `OkMixed` is satisfiable with a `.mutate` -/
+example : ∃ hist : List (Fate × Tx Id Pt),
+    OkMixed (storable productQuantizedPoint) norm okP fitSpec (Cache.empty, KV.empty) hist ∧
+    hist.length = 4 ∧ (keys (runMixed (storable productQuantizedPoint) (Cache.empty, KV.empty) hist).2).length = 4 := by
+  let w1 : Fate × Tx Id Pt := (.keep, .write [.put 5#64 { vec := [1#8] }, .put 6#64 { vec := [3#8] }])
+  let sr : Fate × Tx Id Pt := (.keep, .search [.get 5#64, .scan])
+  let fl : Fate × Tx Id Pt := (.keep, .failed [.put 7#64 { vec := [9#8] }])
+  let tr : Fate × Tx Id Pt := (.evict, .write [.mutate (fitRewrite fun _ => [2#8])])
+  refine ⟨[w1, sr, fl, tr], ?_, rfl, by decide⟩
+  have hok1 : ∀ op, op ∈ [Op.put 5#64 ({ vec := [1#8] } : Pt), Op.put 6#64 { vec := [3#8] }] →
+      OpOk (storable productQuantizedPoint) norm okP fitSpec KV.empty op := by
+    intro op hop
+    simp only [List.mem_cons, List.mem_nil_iff, or_false] at hop
+    rcases hop with rfl | rfl <;> exact ⟨⟨by simp, fun _ => by decide⟩, fun h => by simp at h⟩
+  -- the bucket the training runs on is well-formed (it is the bucket after the first write)
+  have hwf1 : wfProduct (runTx (storable productQuantizedPoint) (Cache.empty, KV.empty) w1).2 :=
+    (runTx_spec fitSpec laws_product enum_product wf_product (c := Cache.empty) (kv := KV.empty)
+      (by intro id h; simp [KV.empty, KV.get] at h) (coherent_empty _ _ _ _) w1 hok1).2.1
+  refine ⟨hok1, trivial, trivial, ?_, trivial⟩
+  intro op hop
+  simp only [List.mem_cons, List.mem_nil_iff, or_false] at hop
+  subst hop
+  exact C08_fit_opok_product _ hwf1 _ (by intro _; simp)
 
 /-- the backends differ on a failing batch, so `C08_backend`'s hypothesis is needed -/
 example : ∃ (b : Batch) (kv : KV), stepBolt kv b ≠ stepMem kv b :=
